@@ -28,6 +28,8 @@ def run(ctx, repo, tier):
     PR.half_hypercube(ctx, repo, "C18")
     PR.float_tolerances(ctx, repo, "C18")
     PR.second_neighbour_search(ctx, repo, "C18")
+    PR.subdivision_unconditional(ctx, repo, "C18")
+    PR.face_criterion_agreement(ctx, repo, "C18")
     # deterministic shuffle
     ci = repo.cls(PR.PO, "Polytope")
     fi = ci.methods["_end_of_divison"]
